@@ -5,6 +5,7 @@ package limiter_test
 // and the metamorphic isolation relation (other subnets' traffic does not change my decisions).
 
 import (
+	"os"
 	"fmt"
 	"math"
 	"net/netip"
@@ -92,7 +93,7 @@ func vfGenAddr(t *rapid.T) netip.Addr {
 }
 
 func TestVfC15Limiter(t *testing.T) {
-	st := vfkit.Stats("TestVfC15Limiter", "limiter options (limit, burst incl. default, masks omitted, in range, or no prefix length at all = default) x arrival histories of (address in few v4/v6/v4-mapped subnets, dt >= 0, cost 1..15) in virtual time, in one case of 1200 after a crowd of 66 000-90 000 clients from as many other subnets; non-trivial = >= 2 subnets, >= 1 refusal and >= 1 admission after a refusal")
+	st := vfkit.Stats("TestVfC15Limiter", "limiter options (limit, burst incl. default, masks omitted, in range, or no prefix length at all = default) x arrival histories of (address in few v4/v6/v4-mapped subnets, dt >= 0, cost 1..15) in virtual time, in about one case of 300 after a crowd of 66 000-90 000 clients from as many other subnets; non-trivial = >= 2 subnets, >= 1 refusal and >= 1 admission after a refusal")
 	defer vfkit.Flush()
 	base := time.Now()
 	rapid.Check(t, func(t *rapid.T) {
@@ -131,11 +132,11 @@ func TestVfC15Limiter(t *testing.T) {
 			evs[i] = vfEvent{addr: vfGenAddr(t), at: now, cost: rapid.SampledFrom([]int{1, 1, 2, 3, 15}).Draw(t, "cost")}
 		}
 
-		// In one case of 1200 a crowd comes first: 66 000-90 000 other clients, each from a subnet of its own (under
+		// In about one case of 300 a crowd comes first: 66 000-90 000 other clients, each from a subnet of its own (under
 		// the default masks), one query each at the first instant. Whatever the limiter keeps per subnet, the clients
 		// that follow are decided as if the crowd's subnets were not there.
 		nCrowd := 0
-		if rapid.IntRange(0, 1199).Draw(t, "crowd") == 0 {
+		if rapid.IntRange(0, 299).Draw(t, "crowd") == 187 || os.Getenv("VF_CROWD") != "" { // (not "== 0": the library favours the ends of a range)
 			nCrowd = rapid.IntRange(66000, 90000).Draw(t, "crowdSize")
 			crowd := make([]vfEvent, nCrowd)
 			for i := range crowd {
